@@ -631,7 +631,8 @@ theorem nstmt_step {fuel : Nat} (hB : NBlock fuel) (hE : NElifs fuel) (hF : NFor
       rw [heq] at g
       split
       · split
-        · have w := writeSlot_good hσ (fldName s f) g
+        · rename_i g0 _ _
+          have w := writeSlot_good hσ (fldName s g0) g
           split
           · rename_i σ' hw; rw [hw] at w; exact GoodR.ok w.1 _
           · rename_i σ' st hw; rw [hw] at w; exact GoodR.err w.1 (w.2 st rfl)
